@@ -417,4 +417,21 @@ theorem seq_recipe_misses_edge :
     (0 : Int) ∈ wK2.net.adj 1 ∧ wK2.comp 0 1 = some 0 ∧ wK2.comp 0 0 = some 1 ∧ (wK2.loci 0).mem (1, 0) = false := by
   decide +kernel
 
+/-! ### non-vacuity: the invariant holds of a concrete world, and `add` does return there -/
+
+/-- one node, no edges, locus 1 (plain) = all nodes -/
+def w1 : W := { net := { nodes := [0], adj := fun _ => [] }, comp := fun _ _ => none,
+                loci := fun i => if i = 1 then TSet.empty.add (eN 0) else TSet.empty }
+
+example : Inv 1 w1 := by
+  refine ⟨⟨fun a b => by simp [w1], fun x => by simp [w1], fun x y h => by simp [w1] at h⟩, by simp [w1], ?_⟩
+  intro e
+  show ((if (1 : Nat) = 1 then TSet.empty.add (eN 0) else TSet.empty).mem e = true) ↔ _
+  rw [if_pos rfl, TSet.mem_add]
+  simp [w1]
+
+/-- from that world, with degree 1 and the random stream "draw index 0 of 2, then iterate the set as [0]", `add` returns and the
+    hypotheses of `add_degree` are met -/
+example : (adAdd? (K := Nat) cfgK2 1 1 .alone { w := w1, rng := [.i 2 0, .perm [0]] }).isSome = true := by decide +kernel
+
 end C19
